@@ -184,7 +184,18 @@ class Txt:
     def __ne__(self, o):
         return s_not(self._eq(o))
 
-    __hash__ = object.__hash__
+    def __hash__(self):
+        # consistent with ==: fully concrete texts hash like the str they equal; texts with symbolic characters all hash alike, so
+        # that set / dict look-ups among them are decided by == (which forks).  A look-up of a symbolic text against *concrete* str
+        # keys of the same container is not modelled: the path set is marked inconclusive (the unchanged library never hashes these).
+        if all(isinstance(i, str) for i in self.items):
+            return hash("".join(self.items))
+        if core.CTX is not None:
+            note = ("a text handle with symbolic characters was hashed (set/dict key): compared by equality with other handles only; "
+                    "look-ups against concrete str keys of the same container are not modelled")
+            if note not in core.CTX.inconclusive:
+                core.CTX.inconclusive.append(note)
+        return 0x5159
 
     def startswith(self, p):
         if isinstance(p, tuple):
